@@ -180,6 +180,27 @@ pub fn sim_spawn(program: &str, args: &[String], fds: Vec<(brush_core::ShellFd, 
     Some(SimChild { pid, exit: Box::pin(exit) })
 }
 
+/// `exec PROGRAM ARGS`: a program the harness owns runs to completion on the calling participant
+/// over the descriptors it would inherit; then the run ends at once with its status, as if the
+/// process image had been replaced (nothing else of the shell runs any more).
+pub fn sim_exec(program: &str, args: &[String], fds: Vec<(brush_core::ShellFd, OpenFile)>) {
+    let Some(name) = std::path::Path::new(program).file_name().map(|n| n.to_string_lossy().to_string()) else { return };
+    if !PROGRAMS.contains(&name.as_str()) {
+        return;
+    }
+    let mut stdin = None;
+    let mut stdout = None;
+    for (fd, f) in fds {
+        match fd {
+            0 => stdin = Some(f),
+            1 => stdout = Some(f),
+            _ => {}
+        }
+    }
+    let raw = behave(&name, args, stdin, stdout);
+    world::exec_replace(raw);
+}
+
 /// Directory holding the (empty) executables that make the owned names resolvable through PATH.
 pub fn bin_dir() -> std::path::PathBuf {
     use std::os::unix::fs::PermissionsExt;
